@@ -81,7 +81,15 @@ Proof.
 Qed.
 
 Lemma att_close s ws : attempts_rev (tr (close_stream s)) ws = attempts_rev (tr s) ws.
-Proof. unfold close_stream. destruct (closed s); auto. simpl. apply att_fail_all. Qed.
+Proof.
+  unfold close_stream. destruct (closed s); auto. simpl.
+  destruct (connecting s); simpl; apply att_fail_all.
+Qed.
+
+Lemma att_handle_connect s ws : attempts_rev (tr (handle_connect s)) ws = attempts_rev (tr s) ws.
+Proof.
+  unfold handle_connect. destruct (connecting s); auto. destruct (conn_ok s); [reflexivity|apply att_close].
+Qed.
 
 Lemma att_resolve_loop : forall q dn t ws,
   attempts_rev (snd (resolve_loop q dn t)) ws = attempts_rev t ws.
@@ -128,14 +136,18 @@ Proof.
   - assert (X : attempts_rev (tr (do_write d s)) (d :: ws) = true).
     { unfold do_write. destruct (closed s); [exact H|]. destruct (is_full s d); [exact H|].
       match goal with |- context [handle_write ?s1] => set (s1' := s1) end.
+      destruct (connecting s); [simpl; rewrite list_eqb_N_refl; exact H|].
       assert (Y : attempts_rev (tr (handle_write s1')) (d :: ws) = true).
       { rewrite att_handle_write. simpl. rewrite list_eqb_N_refl. exact H. }
       destruct (dead _ || closed _); exact Y. }
     destruct (dead (do_write d s)); [exact X|]. rewrite att_snapshot. exact X.
   - assert (X : attempts_rev (tr (do_ready s)) ws = true).
     { unfold do_ready. destruct (closed s || negb (listening s)); [exact H|].
-      assert (Y : attempts_rev (tr (handle_write (emit (EReady true) s))) ws = true)
-        by (rewrite att_handle_write; exact H).
+      set (s1 := handle_connect (emit (EReady true) s)).
+      assert (Y0 : attempts_rev (tr s1) ws = true) by (unfold s1; rewrite att_handle_connect; exact H).
+      destruct (closed s1); [exact Y0|].
+      assert (Y : attempts_rev (tr (handle_write s1)) ws = true)
+        by (rewrite att_handle_write; exact Y0).
       destruct (dead _ || closed _); exact Y. }
     destruct (dead (do_ready s)); [exact X|]. rewrite att_snapshot. exact X.
   - assert (X : attempts_rev (tr (close_stream (emit EClose s))) ws = true)
@@ -214,11 +226,16 @@ Qed.
 
 Theorem check_run_ok : forall c, check_case c (run_case c) = true.
 Proof.
-  intros [t m ops sc|t bops].
+  intros [cn t m ops sc|t bops].
   - unfold check_case, run_case, enc_trace.
     rewrite dec_all_events, dec_all_nats, rev_involutive, list_nat_eqb_refl, andb_true_r.
-    pose proof (run_inv t m sc ops) as (_ & Hg & _). rewrite Hg. simpl.
-    pose proof (att_run_ops ops (init t m sc) [] (Inv_init t m sc) eq_refl) as H.
+    pose proof (run_inv cn t m sc ops) as (_ & Hg & _). rewrite Hg. simpl.
+    assert (H0 : attempts_rev (tr (init_with cn t m sc)) [] = true) by (destruct cn; reflexivity).
+    pose proof (att_run_ops ops (init_with cn t m sc) [] (Inv_init cn t m sc) H0) as H.
     apply attempts_of_rev in H. rewrite app_nil_r, rev_involutive in H. exact H.
-  - unfold check_case, run_case. apply (check_bops_run t bops empty_buf wf_empty).
+  - unfold check_case, run_case.
+    pose proof (check_bops_run t bops empty_buf wf_empty) as H0. change (abs empty_buf) with (@nil N) in H0.
+    rewrite H0. simpl.
+    unfold q_obs. destruct (q_refines t (to_qops bops) empty_buf wf_empty) as (b & A & _ & C).
+    rewrite A, C. apply obs_eqb_dig.
 Qed.
